@@ -197,6 +197,17 @@ def _hybrid(chk, repo):
         ok = len(i_step) == 1 and len(i_store) == 1 and i_step[0] < i_store[0] and len(nested) == 2
         chk.add("C09-R4", f"{ci.qual}.{m}", ok, site(repo, lp), "step() then _store_samples(), once each, unconditionally per sweep",
                 "a sweep is not followed by exactly one unconditional store of the current values", lp)
+        # nothing but the sweeps changes the sampler: outside the loop no statement has an effect on self or on an object reached from self
+        # (re-targeting a block sampler runs its validate_target, which for Direct draws a sample: N then M sweeps would differ from N+M)
+        eff = []
+        for st in fn.body:
+            if st is lp or any(st is x for x in ast.walk(lp)):
+                continue
+            for why in _deep_effects(ci, st):
+                eff.append(f"`{unparse(st)[:60]}`: {why}")
+        chk.add("C09-R4", f"{ci.qual}.{m}/outside-loop", not eff, site(repo, fn), "statements outside the sweep loop are effect-free",
+                f"{'; '.join(eff[:3])} -- {m}() changes sampler state (or consumes random numbers through the block samplers' target validation) besides its "
+                f"sweeps, so drawing N then M sweeps no longer equals drawing N+M", fn)
     ss_src = repo.method(ci, "_store_samples")[1]
     ss = canon_fn(repo, ci, ss_src, 3)
     lp = _single_loop(ss, f"{ci.qual}._store_samples")
@@ -267,6 +278,60 @@ LEGACY_STATELESS_STEP = {
     "cuqi/sampler/_conjugate.py:Conjugate": "closed-form draw from the exact conditional (Gamma): no solver, no dependence on the current value",
     "cuqi/sampler/_conjugate_approx.py:ConjugateApprox": "closed-form draw from the approximate conditional (Gamma): no solver, no dependence on the current value",
 }
+
+
+_PURE_METHODS = {"get", "keys", "values", "items", "copy", "index", "count", "get_density", "get_parameter_names", "format", "join"}
+_PURE_FUNCS = {"max", "min", "int", "float", "len", "range", "tqdm", "isinstance", "abs", "round", "bool", "str", "print", "enumerate", "zip", "list", "tuple", "dict",
+               "sorted", "hasattr", "getattr", "ValueError", "TypeError", "NotImplementedError", "warnings.warn", "np.ceil", "np.floor", "np.array", "np.asarray"}
+
+
+def _deep_effects(ci, node, seen=None, depth=0):
+    """reasons why executing `node` (a statement of a method of ci) may change self or an object reached from self: stores / deletes / in-place
+    operations on a self-rooted path, mutator or unknown method calls on self-rooted objects, calls of own methods that have such effects"""
+    from ..astutil import MUTATOR_METHODS
+    seen = seen if seen is not None else set()
+    out = []
+    aliases = set()          # locals bound to self-rooted objects in this node
+    def rooted(e):
+        while isinstance(e, (ast.Attribute, ast.Subscript, ast.Call)):
+            e = e.value if not isinstance(e, ast.Call) else e.func
+        return isinstance(e, ast.Name) and (e.id == "self" or e.id in aliases)
+    for n in ast.walk(node):
+        if isinstance(n, (ast.For, ast.comprehension)) and rooted(n.iter):
+            aliases |= {t.id for t in ast.walk(n.target) if isinstance(t, ast.Name)}
+        if isinstance(n, ast.Assign) and rooted(n.value) and not isinstance(n.value, ast.Call):
+            aliases |= {t.id for T in n.targets for t in ast.walk(T) if isinstance(t, ast.Name) and isinstance(T, ast.Name)}
+    for n in ast.walk(node):
+        tg = []
+        if isinstance(n, ast.Assign):
+            tg = [t for T in n.targets for t in (T.elts if isinstance(T, (ast.Tuple, ast.List)) else [T])]
+        elif isinstance(n, (ast.AugAssign, ast.AnnAssign)):
+            tg = [n.target]
+        elif isinstance(n, ast.Delete):
+            tg = n.targets
+        for t in tg:
+            if isinstance(t, (ast.Attribute, ast.Subscript)) and rooted(t):
+                out.append(f"writes `{unparse(t)}`")
+        if isinstance(n, ast.Call):
+            cn = call_name(n) or ""
+            if cn in ("setattr", "delattr") and n.args and rooted(n.args[0]):
+                out.append(f"`{unparse(n)[:50]}`")
+            elif isinstance(n.func, ast.Attribute) and rooted(n.func.value):
+                m = n.func.attr
+                if cn.startswith("self.") and cn.count(".") == 1 and ci.lookup(m) is not None:
+                    if (ci.qual, m) in seen or depth > 6:
+                        continue
+                    seen.add((ci.qual, m))
+                    sub = []
+                    for st in ci.lookup(m)[1].body:
+                        sub += _deep_effects(ci, st, seen, depth + 1)
+                    if sub:
+                        out.append(f"self.{m}() {sub[0]}")
+                elif m in MUTATOR_METHODS:
+                    out.append(f"`{unparse(n)[:50]}` mutates in place")
+                elif m not in _PURE_METHODS:
+                    out.append(f"calls `{unparse(n.func)}` on an object owned by the sampler")
+    return out
 
 
 def _legacy_steps_start_from_current(chk, repo):
